@@ -8,6 +8,7 @@ import (
 	"fmt"
 	"strings"
 	"sync"
+	"sync/atomic"
 	"testing"
 	"time"
 
@@ -52,7 +53,7 @@ type synObs struct {
 	maxVerified uint64
 	errorSeen   bool // State().Error was non-empty at some quiescent point after a getter error
 	classes     []string
-	tainted     bool
+	tainted     atomic.Bool
 	stepBase    int // index offset of the chunk being run
 	lastLearned int // global index of the last step in which a head above everything known was learned
 }
@@ -243,7 +244,7 @@ func (sw *synWorld) runSteps(p synP, obs *synObs) {
 			}
 			obs.classes = append(obs.classes, fmt.Sprintf("timewarp:%v:%v", ea == nil, eb == nil))
 			if eb == nil {
-				obs.tainted = true // B was legitimately adopted non-adjacently: the canonical-only oracles no longer apply
+				obs.tainted.Store(true) // B was legitimately adopted non-adjacently: the canonical-only oracles no longer apply
 				return
 			}
 		case "burst":
@@ -344,11 +345,11 @@ func c03Run(c *mon.Case, p synP) {
 			return
 		}
 		obs := &synObs{}
-		sw.tolerateBad = func(h H) bool { return h != nil && h.Signed && h.Chain == sw.chain.ID && obs.tainted }
+		sw.tolerateBad = func(h H) bool { return h != nil && h.Signed && h.Chain == sw.chain.ID && obs.tainted.Load() }
 		sw.runSteps(p, obs)
 		sw.setMode("ok")
 		sw.settle()
-		if !obs.tainted {
+		if !obs.tainted.Load() {
 			sw.storeCheck("quiescent")
 		}
 		for _, pt := range synHooks {
